@@ -420,6 +420,7 @@ class Process:
         self.n = 0
         self.seen_ids: set = set()
         self.baseline = None
+        self.prev = None
 
     def snapshot(self):
         import_all_rpft()
@@ -459,7 +460,12 @@ class Process:
         # a module imported lazily by this call becomes part of the baseline (not a state change)
         for a in [a for a in audit if a["import_time"] == "<absent>" or a["where"] == "<rpft modules>"]:
             self.baseline[a["where"]] = now.get(a["where"])
-        audit = [a for a in audit if a["import_time"] != "<absent>" and a["where"] != "<rpft modules>"]
+        # report a deviation from the import-time state at the call that produced it (not again at
+        # every later call of the process)
+        prev = self.prev if self.prev is not None else self.baseline
+        audit = [a for a in audit if a["import_time"] != "<absent>" and a["where"] != "<rpft modules>"
+                 and now.get(a["where"]) != prev.get(a["where"])]
+        self.prev = now
         full = {"result": res, "plain_json": plain, "exc": norm(exc), "logs": logs, "invented": invented,
                 "reused_in_process": reused, "audit": audit}
         if spec.get("_raw") or spec["op"] in ("logprog", "uuiddict"):
